@@ -109,6 +109,22 @@ def _partition(ctx):
                f"every row of the {name} frame carries reporting = {want}" if rv == want
                else f"the {name} frame does not carry reporting = {want} on every row (found {rv}): group 'reporting' counts then include / miss "
                     f"units that are not modelled reporting units")
+    # units that are only passed through are only ever summed (group sums, indicator products): a missing vote count among them
+    # must have been replaced by 0, or one NaN wipes out the totals of its groups (bootstrap: pred_turnout NaN, margin 0)
+    uf = ctx.fn("elexmodel.handlers.data.CombinedData", "CombinedDataHandler._get_unexpected_units")
+    ut = ctx.builder(inline=lambda *a: False).summarize(uf).ret()
+    okfill = False
+    for x in ir.walk(ut):
+        if x[0] == "setitem" and x[2][0] == "comp" and x[3][0] == "call" and x[3][1][0] == "attr" and x[3][1][2] == "fillna":
+            conds = " ".join(ir.show(cnd, maxdepth=6) for g_ in x[2][3] for cnd in g_[2])
+            zero = dict(x[3][3]).get("value") == ("const", 0) or (x[3][2] and x[3][2][0] == ("const", 0))
+            same = x[3][1][1][0] == "sub" and x[3][1][1][2] == x[2]
+            if "startswith('results_')" in conds and zero and same:
+                okfill = True
+    ctx.ob("C01.R1.passed-through-nan-free", f"{uf.qualname}|missing vote counts of passed-through units count as 0", okfill, uf.where(),
+           "every results_* column of the units taken from the feed is filled with 0 where it is missing" if okfill
+           else "a unit taken from the feed with a missing (NaN) vote count keeps the NaN: it enters the group sums / indicator products "
+                "of every estimator and turns the totals of its groups into NaN")
     if not structured:
         return
     # de-duplication inside the third frame
@@ -228,6 +244,15 @@ def _aggregates(ctx):
     check_sum(ctx, "C01.R3.results", f, "results_e", F.col(ret, res), {"R": ir.show(res), "U": ir.show(res), "N": ir.show(res)}, f.where())
     check_sum(ctx, "C01.R3.reporting", f, "reporting", F.col(ret, ("const", "reporting")),
               {"R": "'reporting'", "U": "'reporting'", "N": "'reporting'"}, f.where())
+    # classification level: the third frame holds two kinds of units - genuinely unexpected ones (no classification: cannot be
+    # attributed) and non-modelled BASELINE units (blocklisted, zero baseline, outliers), whose classification is known and whose
+    # counted votes therefore belong to their classification group.  Leaving the whole frame out loses the latter.
+    lin_c = am.linear(F.col(ret, res), {CLS_FLAG: True}, [])
+    keeps = any(any(x == U_ for x in ir.walk(a)) for _, a in lin_c)
+    ctx.ob("C01.R3.classified-passthrough", f"{f.qualname}|classification level keeps the classified pass-through units", keeps, f.where(),
+           "at classification level the counted votes include the third frame's rows with a known classification" if keeps
+           else "at classification level the whole third frame is left out of the counted votes, including the non-modelled baseline units "
+                "(blocklisted / zero baseline / outliers) whose classification is known: their votes are missing from the classification table")
     # which estimator uses which aggregate function
     for modn, cn in (("elexmodel.models.NonparametricElectionModel", "NonparametricElectionModel"),
                      ("elexmodel.models.GaussianElectionModel", "GaussianElectionModel")):
@@ -250,6 +275,17 @@ def _bootstrap_margin(ctx):
     s = b.summarize(f, {"estimand": ("const", "margin")}, self_cls=cls)
     ret = s.ret()
     F = Frames(b)
+    # classification level (see R3.classified-passthrough): the bootstrap functions replace the whole third frame by an empty
+    # slice, which also drops the non-modelled baseline units whose classification is known
+    for qn in ("get_aggregate_predictions", "get_aggregate_prediction_intervals"):
+        bf = ctx.fn(BM, f"BootstrapElectionModel.{qn}")
+        bs = s if qn == "get_aggregate_predictions" else b.summarize(bf, {"estimand": ("const", "margin")}, self_cls=cls)
+        pool = [t_ for _, _, t_, _ in bs.assigns] + [bs.ret()]
+        drops_all = any(x[0] == "phi" and x[1] == CLS_FLAG and am.empty_slice_of(x[2], U_) for t_ in pool for x in ir.walk(t_))
+        ctx.ob("C01.R3.classified-passthrough", f"{bf.qualname}|classification level keeps the classified pass-through units", not drops_all, bf.where(),
+               "at classification level the rows of the third frame with a known classification still take part" if not drops_all
+               else "at classification level the third frame is replaced by an empty slice: the non-modelled baseline units (blocklisted / zero "
+                    "baseline / outliers), whose classification is known, lose their two-party votes and margins in the classification table")
     # take the non-top-level branch (no call adjustment) for results_margin / pred_turnout; they are set before the branch
     fr = ret[3] if ret[0] == "phi" else ret
     fr = am.non_classification_view(fr)
